@@ -341,6 +341,9 @@ class Script:
     def vkind(self, v, node):
         if isinstance(v, ast.Constant):
             return "VKImm"
+        if isinstance(v, ast.Tuple):
+            ks = [self.vkind(x, node) for x in v.elts]
+            return "VKShared" if "VKShared" in ks else ("VKAlloc" if "VKAlloc" in ks else "VKImm")
         if isinstance(v, (ast.Dict, ast.List, ast.Set)):
             return "VKAlloc"
         if isinstance(v, (ast.BinOp, ast.UnaryOp, ast.Compare, ast.BoolOp, ast.JoinedStr)):
@@ -625,6 +628,9 @@ class Script:
             elif isinstance(t, ast.Subscript):
                 need(self.kind(t.value) is None, "%s: item assignment on an atom" % self.where)
                 self.scan(t.value)
+                if isinstance(t.value, ast.Attribute) and t.value.attr in self.lazy and self.kind(t.value.value) in self.TG:
+                    need(v is not None, "%s: item assignment from an unpacked value" % self.where)
+                    self.emit("ESub %s %s %s" % (self.TG[self.kind(t.value.value)], cstr(t.value.attr), self.vkind(v, st)))
             else:
                 self.fail(st, "assignment target not recognised")
 
@@ -663,6 +669,11 @@ class Script:
             ok = any(isinstance(n, ast.Attribute) and n.attr in self.lazy for n in ast.walk(base))
             if not ok:
                 self.fail(st, "store into an object reached from an atom through a non-lazy attribute")
+            if isinstance(base, ast.Attribute) and base.attr in self.lazy and self.kind(base.value) in self.TG:
+                # atom.lazy.field = v : what kind of object becomes reachable from the atom's data
+                vk = self.vkind(v, st) if v is not None else "VKImm"
+                if vk != "VKImm":
+                    self.emit("ESub %s %s %s" % (self.TG[self.kind(base.value)], cstr(base.attr), vk))
 
     def call_stmt(self, c):
         f = c.func
@@ -705,6 +716,11 @@ class Script:
             return
         if isinstance(f, ast.Attribute) and f.attr in ("append", "extend", "update", "close"):
             self.scan(c)
+            if isinstance(f.value, ast.Name) and str(self.env.get(f.value.id, "")).startswith("getdefault:"):
+                need(f.attr == "append" and len(c.args) == 1 and not c.keywords,
+                     "%s: only .append(x) is recognised on the object held by an atom" % self.where)
+                _, tg, attr = self.env[f.value.id].split(":")
+                self.emit("ESub %s %s %s" % (tg, cstr(attr), self.vkind(c.args[0], c)))
             return
         self.scan(c)
         if isinstance(f, ast.Name) and f.id in PURE_BUILTINS:
@@ -758,6 +774,61 @@ def gen_imports(out):
     out.append("Definition import_calls : list (string * list string) := %s." % clist(rows))
 
 
+def gen_xray_table(out):
+    """xsf.Xray: `sftable = property(_gettable)`; _gettable stores into self._table an array that it obtained
+    from numpy.loadtxt in the same call (fresh per Xray object).  Anything else (a module-level cache, a helper)
+    is not recognised: fail closed."""
+    src, tree = parse_module(os.path.join(PKG, "xsf.py"))
+    cls = [n for n in tree.body if isinstance(n, ast.ClassDef) and n.name == "Xray"]
+    need(len(cls) == 1, "class Xray not found in xsf.py")
+    cls = cls[0]
+    get = [m for m in cls.body if isinstance(m, ast.FunctionDef) and m.name == "_gettable"]
+    need(len(get) == 1 and [a.arg for a in get[0].args.args] == ["self"], "Xray._gettable not found")
+    prop = [m for m in cls.body if isinstance(m, ast.Assign) and is_name(m.targets[0], "sftable")]
+    need(len(prop) == 1 and isinstance(prop[0].value, ast.Call) and is_name(prop[0].value.func, "property")
+         and prop[0].value.args and is_name(prop[0].value.args[0], "_gettable"), "Xray.sftable is not property(_gettable)")
+    need(any(isinstance(m, ast.Assign) and is_name(m.targets[0], "_table") and isinstance(m.value, ast.Constant)
+             and m.value.value is None for m in cls.body), "Xray._table class default is not None")
+    fresh = set()       # local names bound to a fresh array in this call
+    stores = []
+    for n in ast.walk(get[0]):
+        if isinstance(n, (ast.Global, ast.Nonlocal)):
+            raise TranslationError("Xray._gettable declares global/nonlocal names")
+        if isinstance(n, ast.Assign):
+            for t in n.targets:
+                if isinstance(t, ast.Name):
+                    v = n.value
+                    while isinstance(v, ast.Attribute) and v.attr == "T":
+                        v = v.value
+                    if isinstance(v, ast.Call) and isinstance(v.func, ast.Attribute) and v.func.attr == "loadtxt" \
+                            and is_name(v.func.value, "numpy"):
+                        fresh.add(t.id)
+                elif isinstance(t, ast.Attribute):
+                    need(is_name(t.value, "self") and t.attr == "_table",
+                         "Xray._gettable stores into %s" % (ast.get_source_segment(src, t) or "?"))
+                    stores.append(n.value)
+                elif isinstance(t, ast.Subscript):
+                    root = t.value
+                    while isinstance(root, (ast.Subscript, ast.Attribute)):
+                        root = root.value
+                    need(isinstance(root, ast.Name) and root.id in fresh,
+                         "Xray._gettable writes into %s, which is not the array it has just read"
+                         % (ast.get_source_segment(src, t) or "?"))
+        if isinstance(n, ast.AugAssign):
+            root = n.target
+            while isinstance(root, (ast.Subscript, ast.Attribute)):
+                root = root.value
+            need(isinstance(root, ast.Name) and root.id in fresh, "Xray._gettable updates something it has not just read")
+    need(len(stores) == 1 and isinstance(stores[0], ast.Name) and stores[0].id in fresh,
+         "Xray._gettable: self._table is not assigned the array read by numpy.loadtxt in the same call "
+         "(a cached or shared array would be served to several Xray objects)")
+    rets = [n for n in ast.walk(get[0]) if isinstance(n, ast.Return)]
+    need(all(isinstance(r.value, ast.Attribute) and is_name(r.value.value, "self") and r.value.attr == "_table" for r in rets)
+         and rets, "Xray._gettable does not return self._table")
+    out.append("(* the array behind Xray.sftable: allocated by numpy.loadtxt for each Xray object on first access *)")
+    out.append("Definition xray_sftable : vkind := VKAlloc.")
+
+
 def gen_loader_scripts():
     out = ["From PT Require Import AttrScript."]
     gen_core(out)
@@ -766,6 +837,7 @@ def gen_loader_scripts():
     for k in keys + eager:
         need(k in have, "loader calls %s which is not one of the translated init functions" % k)
     gen_imports(out)
+    gen_xray_table(out)
     write("LoaderScripts", "periodictable/{core,__init__,mass,density,nsf,xsf,covalent_radius,crystal_structure,"
           "magnetic_ff,activation}.py", "\n".join(out))
 
